@@ -34,6 +34,10 @@ func (e *executionContext) terminated() {
 // AppendLog commits the log: it is chained, handed to the batcher and, for a log carrying a new transaction
 // (tx != nil), the transaction gets its id. A preview chains nothing, allocates nothing and persists nothing.
 func (e *executionContext) AppendLog(ctx context.Context, log *ledger.Log, tx *ledger.Transaction) (*ledger.ChainedLog, chan struct{}, error) {
+	// every kind of write records its idempotency key, so that a retry finds it
+	if e.parameters.IdempotencyKey != "" {
+		log = log.WithIdempotencyKey(e.parameters.IdempotencyKey)
+	}
 	if e.parameters.DryRun {
 		ret := make(chan struct{})
 		close(ret)
